@@ -12,6 +12,7 @@ fn registry() -> Vec<PartDesc> {
     v.push(desc::<props::c01::C01>("exploration"));
     v.push(desc::<props::c02::C02>("exploration"));
     v.push(desc::<props::c03::C03>("exploration"));
+    v.push(desc::<props::c04::C04>("fault_enumeration"));
     #[cfg(feature = "async-trait")]
     v.push(desc::<props::c01::C01At>("exploration"));
     #[cfg(not(feature = "async-trait"))]
